@@ -2,6 +2,8 @@ package rules
 
 import (
 	"fmt"
+	"go/constant"
+	"go/token"
 	"go/types"
 	"strings"
 
@@ -20,8 +22,8 @@ import (
 
 func init() {
 	Register(&Rule{ID: "R-SCP-9", Props: []string{"C15"}, Floor: 15,
-		Doc:      "every call in lib/query that yields a StatementFlow from running statements (its callee can reach Processor.execute) has that flow extracted and used, and sits in a function that itself returns a (StatementFlow, error) pair — where R-SCP-5 decides what becomes of it — or is the documented consumer: the executor of a user-defined function body (the statement list originates from UserDefinedFunction.Statements; RETURN ends the function, the other flows cannot occur there). A function without a flow result that runs any other statement list drops EXIT/RETURN/BREAK/CONTINUE",
-		Controls: []string{"CtlFlowDroppedByHelper"},
+		Doc:      "every call in lib/query that yields a StatementFlow from running statements (its callee can reach Processor.execute) has that flow extracted and used, and sits in a function that itself returns a (StatementFlow, error) pair — where R-SCP-5 decides what becomes of it — or is the documented consumer: the executor of a user-defined function body (the statement list originates from UserDefinedFunction.Statements; RETURN ends the function, BREAK / CONTINUE end at the loops of the body) — which still has to take the flow, compare it with Exit and return a non-nil error on every return of that branch, because EXECUTE and SOURCE inside the body can run EXIT and an expression has no other way to terminate the procedure. A function without a flow result that runs any other statement list drops EXIT/RETURN/BREAK/CONTINUE",
+		Controls: []string{"CtlFlowDroppedByHelper", "CtlFlowBodyDropsExit", "CtlFlowBodyExitReturnsNil"},
 		Run:      ruleScp9})
 }
 
@@ -109,7 +111,12 @@ func ruleScp9(c *Ctx) {
 				}
 				switch {
 				case body:
-					c.Ok(key, c.Pos(call), "the statement list is the body of a user-defined function: RETURN ends the function here, no flow leaves it")
+					// An expression has no flow to hand on: RETURN ends the function, BREAK / CONTINUE end at the loop
+					// inside the body — but EXIT (reached through EXECUTE or SOURCE in the body, which the grammar of a
+					// function body cannot exclude) terminates the procedure, so it has to leave as an error.
+					good, why := c9ExitLeaves(c, fn, flow)
+					c.Check(good, key, c.Pos(call), "the statement list is the body of a user-defined function: RETURN ends the function here, and the flow Exit is tested and leaves the function as an error on every return of that branch",
+						fmt.Sprintf("%s runs the body of a user-defined function through %s and %s: EXIT executed inside the body (EXECUTE 'EXIT', a sourced file) ends only the function call — the function yields NULL and the procedure goes on with the next statement instead of terminating", c.P.Name(fn), callee, why))
 				case !fnHasFlow:
 					c.Bad(key, c.Pos(call), fmt.Sprintf("%s runs statements through %s but has no StatementFlow result: the flow of those statements is dropped here, so EXIT, RETURN, BREAK and CONTINUE reached inside them (a sourced file, an EXECUTE string, a block) no longer transfer control in the caller — the script simply goes on with the next statement", c.P.Name(fn), callee))
 				case !used:
@@ -121,6 +128,74 @@ func ruleScp9(c *Ctx) {
 		}
 	}
 	c.negControls(start, "okFlowHelperReturnsFlow", "okFlowFunctionBody")
+}
+
+// c9ExitLeaves: the flow value is compared with the constant Exit of its type, and every return of the
+// branch taken when they are equal carries an error that is not nil.
+func c9ExitLeaves(c *Ctx, fn *ssa.Function, flow ssa.Value) (bool, string) {
+	if flow == nil || flow.Referrers() == nil {
+		return false, "does not take the StatementFlow it returns"
+	}
+	named, _ := flow.Type().(*types.Named)
+	if named == nil || named.Obj().Pkg() == nil {
+		return false, "the flow has no named type"
+	}
+	exitConst, _ := named.Obj().Pkg().Scope().Lookup("Exit").(*types.Const)
+	if exitConst == nil {
+		return false, "the package of the flow type has no constant Exit"
+	}
+	errIdx := fn.Signature.Results().Len() - 1
+	if errIdx < 0 || !core.IsErrorType(fn.Signature.Results().At(errIdx).Type()) {
+		return false, "has no error result through which EXIT could leave"
+	}
+	tested := false
+	for _, r := range *flow.Referrers() {
+		bo, ok := r.(*ssa.BinOp)
+		if !ok || (bo.Op != token.EQL && bo.Op != token.NEQ) {
+			continue
+		}
+		other := bo.Y
+		if other == flow {
+			other = bo.X
+		}
+		k, ok := other.(*ssa.Const)
+		if !ok || k.Value == nil || !constant.Compare(k.Value, token.EQL, exitConst.Val()) {
+			continue
+		}
+		for _, u := range *bo.Referrers() {
+			iff, ok := u.(*ssa.If)
+			if !ok {
+				continue
+			}
+			taken := iff.Block().Succs[0]
+			if bo.Op == token.NEQ {
+				taken = iff.Block().Succs[1]
+			}
+			if len(taken.Preds) != 1 {
+				continue
+			}
+			tested = true
+			n := 0
+			for _, ret := range core.Returns(fn) {
+				if ret.Block() != taken && !taken.Dominates(ret.Block()) {
+					continue
+				}
+				n++
+				for _, v := range core.ReturnOperand(ret, errIdx) {
+					if v == nil || curErrKind(c, v, ret) != core.NonNil {
+						return false, "returns without an error at " + c.Pos(ret) + " when the flow is Exit"
+					}
+				}
+			}
+			if n == 0 {
+				return false, "tests the flow for Exit but does not return on that branch"
+			}
+		}
+	}
+	if !tested {
+		return false, "never tests the flow for Exit"
+	}
+	return true, ""
 }
 
 func shortCallee(s string) string {
